@@ -1,5 +1,6 @@
 import RedisVerif.Model.Shards
 import RedisVerif.Model.ShardsStr
+import RedisVerif.Model.ShardsClock
 import RedisVerif.Lemmas.Shards
 import RedisVerif.Lemmas.ShardsStr
 
@@ -25,7 +26,9 @@ only the keys it names), with the two routing hashes of the code as two function
 * `…_counterexample` — what the pinned code does outside these hypotheses (all replayed on the
   real code by the harness on every run): the two hashes differ (`fast_set` then generic `STRLEN`),
   two-key commands run on the first key's shard (RENAME), MSETNX likewise, SCAN drops the shards'
-  cursors, RANDOMKEY asks shard 0 only.
+  cursors.  Both `fix:` commits are in: 872671c (one routing hash: `fixed = true` is the code now)
+  and 4d9bd05 (RANDOMKEY asks every shard: `randomkey_refines`; the pinned arm survives as
+  `randomkeyPinned` / `randomkey_counterexample`).
 -/
 namespace RedisVerif
 namespace C03
@@ -34,9 +37,12 @@ open Shards NMap
 
 /-! ## observational equivalence of replies -/
 
-/-- equal up to permutation inside an unordered (KEYS) reply -/
+/-- equal up to permutation inside an unordered (KEYS) reply; RANDOMKEY replies are compared as a
+    client can: nil or not (which key is named is legitimately arbitrary — that it IS a key of the
+    keyspace is `randomkey_refines`) -/
 def replyEqv : Reply → Reply → Bool
   | .keys l, .keys l' => l.isPerm l'
+  | .rkey a, .rkey b => a.isSome == b.isSome
   | r, r' => r == r'
 
 def repliesEqv : List Reply → List Reply → Bool
@@ -84,8 +90,8 @@ theorem repliesEqv_trans {a b c : List Reply} (h1 : repliesEqv a b = true)
 
 /-! ## the class of commands the sharding layer handles correctly -/
 
-/-- decidable: everything except two-key commands / MSETNX whose keys live on different shards,
-    SCAN and RANDOMKEY -/
+/-- decidable: everything except two-key commands / MSETNX whose keys live on different shards
+    and SCAN (RANDOMKEY is in since fix 4d9bd05) -/
 def Routable {S : Sig} (R : Routes) (fixed : Bool) : Cmd S → Bool
   | .two a b _ => R.gen fixed a == R.gen fixed b
   | .msetnx kvs =>
@@ -93,7 +99,6 @@ def Routable {S : Sig} (R : Routes) (fixed : Bool) : Cmd S → Bool
     | [] => true
     | kv :: rest => rest.all (fun x => R.gen fixed x.1 == R.gen fixed kv.1)
   | .scan _ _ _ => false
-  | .randomkey => false
   | _ => true
 
 /-- the two hashes agree (what `hash_key` → `hash_key_bytes(key.as_bytes())` establishes) -/
@@ -256,7 +261,18 @@ theorem shards_refine_single (hL : E.Local) (R : Routes) (fixed : Bool) (hv : R.
           | nil => rfl
           | cons kv rest => simp [primaryKey] at hp)
     exact ⟨this.1, this.2.1, replyEqv_of_eq this.2.2⟩
-  | randomkey => simp [Routable] at hr
+  | randomkey =>
+    obtain ⟨h1, o, h2, h3, _⟩ := randomkey_spec (E := E) h
+    have hex : execN E R fixed st .randomkey = randomkeyFrom E st (List.range R.N) := rfl
+    rw [hex, h1, h2]
+    refine ⟨h, rfl, ?_⟩
+    show (o.isSome == ((NMap.keys (abs st)).head?).isSome) = true
+    cases o with
+    | none => rw [h3.mp rfl]; rfl
+    | some k =>
+      cases hk : (NMap.keys (abs st)).head? with
+      | none => have := h3.mpr hk; cases this
+      | some _ => rfl
   | scan _ _ _ => simp [Routable] at hr
   | fastGet k =>
     have := refine_keyed hL h (.fastGet k) rfl (R.bytes k) (hv k).2 (by simp [keyList])
@@ -371,6 +387,21 @@ theorem shards_refine_single (hL : E.Local) (R : Routes) (fixed : Bool) (hv : R.
             | cons a rest => simp [primaryKey] at hp)
       exact ⟨this.1, this.2.1, replyEqv_of_eq this.2.2⟩
 
+/-- **RANDOMKEY** (repaired code): the N-shard reply is nil iff the one-store reply is nil, a
+    non-nil reply names a key of the union of the shards, and nothing changes -/
+theorem randomkey_refines {R : Routes} {fixed : Bool} {st : Shards S.Val} (h : Inv R st) :
+    (execN E R fixed st .randomkey).1 = st ∧
+    ∃ o, (execN E R fixed st .randomkey).2 = .rkey o ∧
+      (o = none ↔ (E.exec (abs st) .randomkey).2 = .rkey none) ∧
+      (∀ k, o = some k → present (abs st) k = true) := by
+  obtain ⟨h1, o, h2, h3, h4⟩ := randomkey_spec (E := E) h
+  refine ⟨h1, o, h2, ?_, h4⟩
+  rw [h3]
+  show _ ↔ Reply.rkey (NMap.keys (abs st)).head? = Reply.rkey none
+  constructor
+  · intro e; rw [e]
+  · intro e; injection e
+
 end step
 
 /-! ## sequences, reachable states, two shard counts -/
@@ -441,7 +472,6 @@ theorem routable_oneShard (fixed : Bool) (c : Cmd S) (R : Routes) (h : Routable 
     | cons kv rest =>
       cases fixed <;> simp [Routable, Routes.gen, oneShard]
   | scan _ _ _ => simp [Routable] at h
-  | randomkey => simp [Routable] at h
   | _ => rfl
 
 /-- **the repaired routing** (`hash_key` delegates to `hash_key_bytes`): `N` shards vs ONE shard,
@@ -481,6 +511,10 @@ theorem exRoutes_valid : exRoutes.Valid := ofTable_valid 2 _ (by decide) (by dec
 example : obsEqv (observe Str.exec exRoutes false exCmds) (observe Str.exec oneShard false exCmds) :=
   shard_count_unobservable_pinned_partial Str.exec_local exRoutes exRoutes_valid (by decide)
     (routeConsistent_ofTable 2 _ (by decide)) exCmds (by decide)
+
+example : obsEqv (observe Str.exec exRoutes true (exCmds ++ [.randomkey]))
+    (observe Str.exec oneShard true (exCmds ++ [.randomkey])) :=
+  shard_count_unobservable_repaired Str.exec_local exRoutes exRoutes_valid (by decide) _ (by decide)
 
 /-- … and the run is not trivial: both shards end up non-empty, the replies are not constant -/
 example : (observe Str.exec exRoutes false exCmds).2 =
@@ -533,10 +567,11 @@ theorem msetnx_counterexample :
     (observe Str.exec oneShard true [.single 2 (.set [49]), .msetnx [(1, [50]), (2, [51])]]).2
         = [.one .ok, .one (.int 0)] := by decide
 
-/-- RANDOMKEY asks shard 0 only -/
+/-- the PINNED code (before fix 4d9bd05) sent RANDOMKEY to shard 0 only: nil although key 2 exists -/
 theorem randomkey_counterexample :
-    (observe Str.exec twoRoutes true [.single 2 (.set [49]), .randomkey]).2 = [.one .ok, .rkey none] ∧
-    (observe Str.exec oneShard true [.single 2 (.set [49]), .randomkey]).2 = [.one .ok, .rkey (some 2)] := by
+    (randomkeyPinned Str.exec [[], [(2, SVal.str [49])]]).2 = .rkey none ∧
+    (Str.exec.exec (abs [[], [(2, SVal.str [49])]]) .randomkey).2 = .rkey (some 2) ∧
+    (execN Str.exec twoRoutes true [[], [(2, SVal.str [49])]] .randomkey).2 = .rkey (some 2) := by
   decide
 
 /-- SCAN: every shard is asked for `SCAN 0 … COUNT 1`, the non-zero cursors are dropped, and the
@@ -555,6 +590,41 @@ theorem C03_statement_repaired_counterexample : ¬ C03_statement Str.exec true :
   decide
 
 end counterexamples
+
+/-! ## per-shard clocks (timed streams; transcription in `Model/ShardsClock.lean`) -/
+
+section clock
+open Shards.Clock
+
+/-- shard count unobservable also when time passes and keys expire — kept as a statement: it is
+    NOT proved here (expiry is C01's model); the timed model is tied to the code by the C03
+    correspondence (timed streams) and the 1-vs-N oracle -/
+def C03_statement_timed (carries : Bool) : Prop :=
+  ∀ (R : Routes), R.Valid → 0 < R.N → ∀ steps : List (Nat × TCmd),
+    runNT R carries (tinit R.N) steps = runNT oneShard carries (tinit 1) steps
+
+/-- the fast / pooled messages did not carry the virtual time: `SET 1 v PX 100` at t = 0; at
+    t = 200 a generic `GET 2` (another shard) and then `fast_get 1` — one shard: nil (its clock was
+    advanced by the GET), two shards: the expired value (key 1's shard still thinks it is t = 0) -/
+theorem stale_clock_counterexample :
+    runNT twoRoutes false (tinit 2) [(0, .setPx 1 [118] 100), (200, .get 2), (200, .fastGet 1)]
+      = [.ok, .nil, .bulk [118]] ∧
+    runNT oneShard false (tinit 1) [(0, .setPx 1 [118] 100), (200, .get 2), (200, .fastGet 1)]
+      = [.ok, .nil, .nil] := by decide
+
+theorem C03_statement_timed_pinned_counterexample : ¬ C03_statement_timed false := by
+  intro h
+  have := h twoRoutes (ofTable_valid 2 _ (by decide) (by decide)) (by decide)
+    [(0, .setPx 1 [118] 100), (200, .get 2), (200, .fastGet 1)]
+  revert this
+  decide
+
+/-- with the virtual time carried by every message the same run agrees -/
+example : runNT twoRoutes true (tinit 2) [(0, .setPx 1 [118] 100), (200, .get 2), (200, .fastGet 1)]
+    = runNT oneShard true (tinit 1) [(0, .setPx 1 [118] 100), (200, .get 2), (200, .fastGet 1)] := by
+  decide
+
+end clock
 
 end C03
 end RedisVerif
